@@ -18,12 +18,13 @@ Gen.gcxsCtorChecks : `GCXS.__init__`, the statements from `if self.data.ndim != 
                                                             if a not in compressed_axes), 1)                 Npz.colsOf
                        ptrDecreases = np.any(self.indptr[1:] < self.indptr[:-1])   some entry is smaller than
                                       its predecessor                                                        Npz.ptrDecreases
-                       shapeOk      = all(isinstance(sh, Integral) and int(sh) >= 0 for sh in shape)         s.all gcxsShapeEltOk
+                       shapeOk      = all(<element> for sh in shape), whatever the element is: it is translated
+                                      separately as Gen.gcxsShapeEltOk                                       s.all gcxsShapeEltOk
                        imin / imax  = np.min / np.max of a non-empty integer array                           Npz.listMin / listMax
                      Iterating `compressed_axes = None` (TypeError) is not an integer matter: the model (`gcxsChecks`)
                      runs `Gen.gcxsCtorChecksHead` and then raises it.
-Gen.gcxsCtorChecksHead : the same statements up to (excluding) `n_uncompressed = …`: what runs before the products over the
-                     compressed axes are formed.
+Gen.gcxsCtorChecksHead : the run of `if …: raise` guards that begins at `if self.data.ndim != 1` (it ends where the first
+                     local is computed): what runs before the products over the compressed axes are formed.
 Gen.gcxsShapeEltOk : the element of that `all(...)`: `isinstance(sh, Integral) and int(sh) >= 0` (members of an integer
                      array are Integral).
 Gen.cooCtorChecks  : `COO.__init__`, from `if self.coords.ndim != 2` up to the `WARN_ON_TOO_DENSE` import: coords 2-d,
@@ -34,7 +35,10 @@ Gen.shapeEltOk     : `SparseArray.__init__` (reached through `super().__init__`)
 """
 INT, BOOL = "Int", "Bool"
 
-ALL_SHAPE = "all((isinstance(sh, Integral) and int(sh) >= 0 for sh in shape))"
+# `...`: whatever the element is — it is translated on its own (Gen.gcxsShapeEltOk, the `within="all"` descriptor above), and the
+# model reads shapeOk as "every extent satisfies Gen.gcxsShapeEltOk"
+ALL_SHAPE = "all((... for sh in shape))"
+ANY_SHAPE = "any((... for sh in shape))"  # the dual spelling of the same guard (`if any(not ok …): raise`), see gen_elt
 ROWS = "reduce(operator.mul, (int(shape[a]) for a in compressed_axes), 1)"
 COLS = "reduce(operator.mul, (int(sh) for a, sh in enumerate(shape) if a not in compressed_axes), 1)"
 PTR_DECREASES = "np.any(self.indptr[1:] < self.indptr[:-1])"
@@ -44,13 +48,13 @@ FILES = {
         "file": "sparse/numba_backend/_compressed/compressed.py",
         "targets": [
             dict(name="gcxsShapeEltOk", kind="elt", func="GCXS.__init__", within="all", iter="shape", target="sh",
-                 consts={"isinstance(sh, Integral)": ("True", "Prop")},
+                 consts={"isinstance(sh, Integral)": "True"},
                  params=[("sh", INT)], ret="bool",
                  note="one extent of `shape` inside all(...): a non-negative integer"),
             dict(name="gcxsCtorChecksHead", func="GCXS.__init__",
-                 select=("between", "if self.data.ndim != 1", "n_uncompressed = "),
+                 select=("guards_from", "if self.data.ndim != 1"),
                  bind={"self.data.ndim": "dataNdim", "len(shape)": "ndim", "len(self.data)": "ndata", "len(self.indices)": "nind"},
-                 consts={ALL_SHAPE: ("(shapeOk = true)", "Prop")},
+                 consts={ALL_SHAPE: "shapeOk", ANY_SHAPE: "not shapeOk"},
                  params=[("dataNdim", INT), ("shapeOk", BOOL), ("ndim", INT), ("ndata", INT), ("nind", INT)], ret="unit",
                  note="the checks that run before the products over compressed_axes are formed"),
             dict(name="gcxsCtorChecks", func="GCXS.__init__",
@@ -59,8 +63,7 @@ FILES = {
                        "len(self.indices)": "nind", "len(self.indptr)": "nptr",
                        "self.indptr[0]": "p0", "self.indptr[-1]": "plast",
                        "np.ndim(self.indices)": "indicesNdim", "np.min(self.indices)": "imin", "np.max(self.indices)": "imax"},
-                 consts={ALL_SHAPE: ("(shapeOk = true)", "Prop"), ROWS: ("rows", INT), COLS: ("cols", INT),
-                         PTR_DECREASES: ("(ptrDecreases = true)", "Prop")},
+                 consts={ALL_SHAPE: "shapeOk", ANY_SHAPE: "not shapeOk", ROWS: "rows", COLS: "cols", PTR_DECREASES: "ptrDecreases"},
                  params=[("dataNdim", INT), ("shapeOk", BOOL), ("ndim", INT), ("sh0", INT), ("ndata", INT), ("nind", INT),
                          ("nptr", INT), ("rows", INT), ("cols", INT), ("p0", INT), ("plast", INT), ("ptrDecreases", BOOL),
                          ("indicesNdim", INT), ("imin", INT), ("imax", INT)], ret="unit",
@@ -82,7 +85,7 @@ FILES = {
         "file": "sparse/numba_backend/_sparse_array.py",
         "targets": [
             dict(name="shapeEltOk", kind="elt", func="SparseArray.__init__", within="all", iter="shape", target="sh",
-                 consts={"isinstance(sh, Integral)": ("True", "Prop")},
+                 consts={"isinstance(sh, Integral)": "True"},
                  params=[("sh", INT)], ret="bool",
                  note="one extent of `shape` inside all(...): a non-negative integer"),
         ],
